@@ -90,7 +90,7 @@ def getitem(x, index):
         # Add to the shape and transform the coords in the case of a slice.
         if isinstance(ind, slice):
             shape.append(len(range(ind.start, ind.stop, ind.step)))
-            coords.append((x.coords[i, mask] - ind.start) // ind.step)
+            coords.append((x.coords[i, mask].astype(np.intp) - ind.start) // ind.step)
             i += 1
             if ind.step < 0:
                 sorted = False
